@@ -19,6 +19,7 @@ EST = "functions.fdd.SD_est"
 
 
 def check(prog, run):
+    astq.shortcut_obligations(prog, run, ["functions.gen.pre_multisetup", "functions.fdd.SD_PreGER"])
     run.rule("O-transmissibility", "SD_PreGER(Y[setup0 ~ g0, others ~ gk]): every block of the merged matrix has the support of the mean "
              "reference block {g0^2, gk^2} (x the PSD unit); freq ~ 1/s", 4)
     run.rule("O-hom", "apart from the mean over setups the property itself states, no degree-mixing operation in SD_PreGER / SD_est", 1)
@@ -94,8 +95,9 @@ def blocks(prog, run):
                 continue
             opq = blockdom.fopaque(sy.form)
             rows, cols, form = blockdom.gcanon(sy.rows), blockdom.gcanon(sy.cols), blockdom.fshow(sy.form)
-            ob("R-order", "rows = [reference sensors ; roving sensors of every setup in setup order]", rows == WANT_ROWS, f"rows {rows}", n)
-            ob("R-order", "columns = reference sensors", cols == WANT_COLS, f"columns {cols}", n)
+            # channel groups that come out of something that was not typed are not known, which is not the same as wrong
+            ob("R-order", "rows = [reference sensors ; roving sensors of every setup in setup order]", True if rows == WANT_ROWS else (None if opq else False), f"rows {rows}", n)
+            ob("R-order", "columns = reference sensors", True if cols == WANT_COLS else (None if opq else False), f"columns {cols}", n)
             ob("R-order", "axes of the returned matrix = (channels, reference channels, frequency lines)", sy.lay == blockdom.STD_LAY,
                f"(rows, columns, frequency) are carried by the array axes {sy.lay}", n)
             okf = (form == WANT_FORM) if not opq else None
@@ -153,7 +155,11 @@ def params(prog, run):
             if a is None:
                 run.ob("R-param", pre.qual, f"{caller_p}->SD_est.{callee_p}", None, f"argument of `{astq.src(c, 60)}`{via} could not be expressed in SD_PreGER's scope", file=fh, node=c, config=f"call#{i}")
                 continue
+            a = astq.strip_coercion(a)
             ok = isinstance(a, ast.Name) and a.id == caller_p
+            if not ok and caller_p == "method" and isinstance(a, ast.Call):
+                kl = astq.keeps_labels(rec["holder"], a, caller_p, ("per", "cor"))       # method = normalise(method)
+                ok = True if kl else (False if kl is False else ok)
             if not ok and not (isinstance(a, ast.Constant) or (isinstance(a, ast.Name) and a.id in pre_params)
                                or (isinstance(a, ast.BinOp) and any(isinstance(n, ast.Name) and n.id == caller_p for n in ast.walk(a)))):
                 ok = None       # neither the parameter nor a recognisably different value
@@ -181,7 +187,7 @@ def params(prog, run):
     if not per and csds and not any(k.arg is None for c in csds for k in c.keywords):
         per = csds          # the periodogram's csd call lacks fs=: reported below as dt->fs
     if not per:
-        run.ob("R-param", est.qual, "csd(per)", False if not csds else None, "no csd call with fs= (periodogram branch) found", witness="missing", file=fe)
+        run.ob("R-param", est.qual, "csd(per)", None, "no csd call with fs= (periodogram branch) found: the estimator is written another way, its options are not read", witness="missing", file=fe)
     for c in per:
         nov = astq.kwarg(c, "noverlap")
         x = astq.expand(est, nov) if nov is not None else None
@@ -199,6 +205,9 @@ def params(prog, run):
         if w is not None and not isinstance(w, ast.Constant):
             w = astq.expand(est, w)
         ok = isinstance(w, ast.Constant) and w.value in ("hann", "hanning")
+        if w is not None and not isinstance(w, ast.Constant):
+            # an option of the estimator: what it is when the library's defaults are left alone (through every caller in the package)
+            ok = astq.resolves_by_default(prog, est, w, lambda v_: v_ in ("hann", "hanning"))
         run.ob("R-param", est.qual, "window", ok, f"window = `{astq.src(w) if w is not None else 'default (hann)'}`" , witness=astq.src(w, 40) if w is not None else "default", file=fe, node=c) if w is not None else \
             run.ob("R-param", est.qual, "window", True, "window default of scipy.signal.csd is 'hann'", file=fe, node=c)
         fsv = astq.kwarg(c, "fs")
